@@ -11,11 +11,12 @@
      FormExit(f)        FormEnd: form-owned ports closed, stage goroutine exits  (StageExit normal | exception)
      PipelineWait(p)    wg.Wait returned: the pipeline is done, raising if any form raised
      EvalReturn         the chunk's pipeline is done
-     Interrupt          the evaluation's context is cancelled *)
+     Interrupt          the evaluation's context is cancelled
+     PipelineStartFail(p, i)  OpenPipe fails (PipeFail = TRUE): see below *)
 EXTENDS Ports, TLC, Json
-CONSTANTS MaxForms, Level, Emitting
-VARIABLES prog, pst, pexc, fst, open, intr, ret
-vars == <<prog, pst, pexc, fst, open, intr, ret>>
+CONSTANTS MaxForms, Level, PipeFail, Emitting
+VARIABLES prog, pst, pexc, fst, open, intr, ret, pfail
+vars == <<prog, pst, pexc, fst, open, intr, ret, pfail>>
 
 (* ---- shapes *)
 B(k) == [k |-> k, sub |-> <<>>]
@@ -40,7 +41,7 @@ CapForms == {F(rs, Cap(q)) : rs \in (IF Level >= 2 THEN {<<>>, <<"fileout">>, <<
 Shapes ==
        SeqsOf(Fs(IF Level >= 2 THEN RedirLists2 ELSE RedirLists1, Leaf), 1)                              \* one form, <= 2 redirections
   \cup (IF MaxForms >= 2 THEN SeqsOf(Fs(IF Level >= 2 THEN RedirLists1 ELSE RedirLists0 \cup {<<"dupbad">>}, Leaf), 2) ELSE {})
-  \cup (IF MaxForms >= 3 THEN SeqsOf(Fs(RedirLists0, Leaf3), 3) ELSE {})                               \* a failing stage at each position
+  \cup (IF MaxForms >= 3 THEN SeqsOf(Fs(IF Level >= 2 THEN RedirLists0 ELSE {<<>>}, Leaf3), 3) ELSE {})   \* a failing stage at each position
   \cup {<<f>> : f \in CapForms}
   \cup {<<F(<<>>, B("ok")), f>> : f \in CapForms}
   \cup {<<f, F(<<>>, B("consume"))>> : f \in CapForms}
@@ -59,7 +60,7 @@ Init == /\ prog \in Shapes
         /\ pst = [p \in PIds(prog, <<>>) |-> IF p = <<>> THEN "ready" ELSE "idle"]
         /\ pexc = [p \in PIds(prog, <<>>) |-> FALSE]
         /\ fst = [f \in FIdsOf(prog, PIds(prog, <<>>)) |-> [pc |-> "idle", k |-> 1, exc |-> FALSE]]
-        /\ open = {} /\ intr = FALSE /\ ret = FALSE
+        /\ open = {} /\ intr = FALSE /\ ret = FALSE /\ pfail = FALSE
 
 PipelineStart(p) ==
   /\ pst[p] = "ready"
@@ -70,6 +71,20 @@ PipelineStart(p) ==
           /\ fst' = [f \in DOMAIN fst |-> IF Pid(f) = p THEN [pc |-> "redir", k |-> 1, exc |-> FALSE] ELSE fst[f]]
           /\ open' = open \cup UNION {{Res("pw", p \o <<i>>), Res("pr", p \o <<i + 1>>), Res("stage", p \o <<i>>)} : i \in 1..(NForms(p) - 1)}
           /\ UNCHANGED pexc
+  /\ UNCHANGED <<prog, intr, ret, pfail>>
+
+(* OpenPipe fails for the pipe after form i (descriptor table full): forms 1..i-1 are already running
+   with their pipes; the specification has the pipeline release the read end meant for form i, never
+   start forms i.., wait for the started ones and raise. (The code returns at once and forgets that
+   read end: checked on the real code by the "pipefail" variant.) *)
+PipelineStartFail(p, i) ==
+  /\ PipeFail /\ ~pfail /\ ~intr /\ pst[p] = "ready" /\ i \in 1..(NForms(p) - 1)
+  /\ pst' = [pst EXCEPT ![p] = "running"] /\ pexc' = [pexc EXCEPT ![p] = TRUE] /\ pfail' = TRUE
+  /\ fst' = [f \in DOMAIN fst |-> IF Pid(f) # p THEN fst[f]
+                                 ELSE IF Idx(f) < i THEN [pc |-> "redir", k |-> 1, exc |-> FALSE]
+                                 ELSE [pc |-> "end", k |-> 1, exc |-> FALSE]]
+  /\ open' = open \cup UNION {{Res("pw", p \o <<j>>), Res("stage", p \o <<j>>)} : j \in 1..(i - 1)}
+                  \cup {Res("pr", p \o <<j + 1>>) : j \in 1..(i - 2)}
   /\ UNCHANGED <<prog, intr, ret>>
 
 Redir(f) ==
@@ -83,7 +98,7 @@ Redir(f) ==
                [] rs[k] = "filein"  -> /\ open' = (open \ {Res("pr", f)}) \cup {FileRes(f, "in")}
                                        /\ fst' = [fst EXCEPT ![f].k = k + 1]
                [] OTHER -> /\ fst' = [fst EXCEPT ![f].k = k + 1] /\ UNCHANGED open
-  /\ UNCHANGED <<prog, pst, pexc, intr, ret>>
+  /\ UNCHANGED <<prog, pst, pexc, intr, ret, pfail>>
 
 (* the input of a form has reached EOF *)
 RECURSIVE InputClosed(_)
@@ -105,37 +120,37 @@ Body(f) ==
        [] b.k = "cap" -> /\ open' = open \cup {Res("capw", f), Res("capr", f), Res("capgv", f), Res("capgb", f)}   \* CaptureBegin
                          /\ pst' = [pst EXCEPT ![f \o <<1>>] = "ready"]
                          /\ fst' = [fst EXCEPT ![f].pc = "cap"]
-  /\ UNCHANGED <<prog, pexc, intr, ret>>
+  /\ UNCHANGED <<prog, pexc, intr, ret, pfail>>
 
 IterEnd(f) ==
   /\ fst[f].pc = "iter" /\ InputClosed(f)
   /\ open' = open \ {Merge(f, n) : n \in 1..3}
   /\ fst' = [fst EXCEPT ![f].pc = "closing"]
-  /\ UNCHANGED <<prog, pst, pexc, intr, ret>>
+  /\ UNCHANGED <<prog, pst, pexc, intr, ret, pfail>>
 
 CaptureEnd(f) ==
   /\ fst[f].pc = "cap" /\ pst[f \o <<1>>] = "done"
   /\ open' = open \ {Res("capw", f), Res("capr", f), Res("capgv", f), Res("capgb", f)}
   /\ fst' = [fst EXCEPT ![f].pc = "closing", ![f].exc = pexc[f \o <<1>>]]
-  /\ UNCHANGED <<prog, pst, pexc, intr, ret>>
+  /\ UNCHANGED <<prog, pst, pexc, intr, ret, pfail>>
 
 FormExit(f) ==
   /\ fst[f].pc = "closing"
   /\ open' = {r \in open : ~(r.id = f /\ r.k \in {"pw", "pr", "file", "stage"})}
   /\ fst' = [fst EXCEPT ![f].pc = "end"]
-  /\ UNCHANGED <<prog, pst, pexc, intr, ret>>
+  /\ UNCHANGED <<prog, pst, pexc, intr, ret, pfail>>
 
 PipelineWait(p) ==
   /\ pst[p] = "running" /\ \A i \in 1..NForms(p) : fst[p \o <<i>>].pc = "end"
   /\ pst' = [pst EXCEPT ![p] = "done"]
-  /\ pexc' = [pexc EXCEPT ![p] = \E i \in 1..NForms(p) : fst[p \o <<i>>].exc]
-  /\ UNCHANGED <<prog, fst, open, intr, ret>>
+  /\ pexc' = [pexc EXCEPT ![p] = @ \/ \E i \in 1..NForms(p) : fst[p \o <<i>>].exc]
+  /\ UNCHANGED <<prog, fst, open, intr, ret, pfail>>
 
-EvalReturn == /\ pst[<<>>] = "done" /\ ~ret /\ ret' = TRUE /\ UNCHANGED <<prog, pst, pexc, fst, open, intr>>
-Interrupt == /\ ~intr /\ ~ret /\ intr' = TRUE /\ UNCHANGED <<prog, pst, pexc, fst, open, ret>>
+EvalReturn == /\ pst[<<>>] = "done" /\ ~ret /\ ret' = TRUE /\ UNCHANGED <<prog, pst, pexc, fst, open, intr, pfail>>
+Interrupt == /\ ~intr /\ ~ret /\ intr' = TRUE /\ UNCHANGED <<prog, pst, pexc, fst, open, ret, pfail>>
 Done == ret /\ UNCHANGED vars
 
-Next == \/ \E p \in DOMAIN pst : PipelineStart(p) \/ PipelineWait(p)
+Next == \/ \E p \in DOMAIN pst : PipelineStart(p) \/ PipelineWait(p) \/ \E i \in 1..2 : PipelineStartFail(p, i)
         \/ \E f \in DOMAIN fst : Redir(f) \/ Body(f) \/ IterEnd(f) \/ CaptureEnd(f) \/ FormExit(f)
         \/ EvalReturn \/ Interrupt \/ Done
 Spec == Init /\ [][Next]_vars
@@ -147,7 +162,7 @@ CleanAtReturn == ret => open = {}
 Alive(f) == fst[f].pc \notin {"idle", "end"}
 NoOrphans == \A r \in open : Alive(r.id)
 (* a form that has not started or has ended owns nothing; pipe ends come in pairs while both forms run *)
-OutcomeOK == (ret /\ ~intr) => (pexc[<<>>] = FailsP(prog))
+OutcomeOK == (ret /\ ~intr /\ ~pfail) => (pexc[<<>>] = FailsP(prog))
 (* an evaluation always returns: checked as absence of deadlock (Done is the only terminal loop) *)
 
 Emit == (Emitting /\ pst[<<>>] = "ready" /\ ~intr /\ ~ret) =>
